@@ -175,6 +175,20 @@ var c15 = gen.Register(&gen.Check[caseC15]{
 			if i, ok := gm.intact(); !ok {
 				return gen.Fail(c.Call+"/writes-msg-backing-array", "%s wrote to the caller's message buffer at byte %d", c.Call, i)
 			}
+			// the buffers stay the caller's after the call returned: later calls (with other, shorter arguments that
+			// would fit into these buffers) must not touch them either
+			for k, fn := range []string{"scalar", "ro", "nu"} {
+				later := []byte("later-dst-0123456789")[:5+5*k]
+				if _, pnc := callHash(fn, []byte{byte(k)}, later); pnc != nil {
+					return gen.Fail(c.Call+"/panic", "panic in a later call: %v", pnc)
+				}
+			}
+			if i, ok := gd.intact(); !ok {
+				return gen.Fail(c.Call+"/retains-dst-buffer", "a later hashing call wrote to the DST buffer of an earlier %s call (byte %d of its backing array: %#x -> %#x)", c.Call, i, gd.snap[i], gd.backing[i])
+			}
+			if i, ok := gm.intact(); !ok {
+				return gen.Fail(c.Call+"/retains-msg-buffer", "a later hashing call wrote to the message buffer of an earlier %s call (byte %d)", c.Call, i)
+			}
 			return nil
 
 		case contains(c15decE, c.Call) || contains(c15decS, c.Call):
